@@ -78,7 +78,7 @@ def reference_selected(src, acc):
 
 def run_case(ctx, case, rng):
   n_sub = 1 if rng.random() < 0.6 else int(rng.integers(2, 4))
-  sep = ';' if rng.random() < 0.25 else '_'
+  sep = str(rng.choice(['_', '_', '_', ';', ';', ':', '.']))     # ':' and '.' as in 'StatefulPartitionedCall:0' / 'arith.constant1' ('.' is a regex metacharacter)
   if rng.random() < 0.15 and n_sub == 1:
     spec = models.TEMPLATES[int(rng.integers(len(models.TEMPLATES)))](rng)
   else:
